@@ -159,3 +159,275 @@ def c11(tier):
 
 
 CHECKS["C11"] = c11
+
+
+# ----------------------------------------------------------------- C09 / C10
+
+def order_check(prop, tier, groups, cfgs, rule):
+    t0 = time.time()
+    wd = core.workdir(prop)
+    flat = []
+    for g in groups:
+        for m in g["members"]:
+            flat.append({"id": len(flat) + 1, "fmt": g["fmt"], "int": m["int"], "frac": m["frac"], "exp": m["exp"]})
+    flat = gen.normalise(flat)
+    outs = parsecheck.run_impl(wd, flat, cfgs)
+    recs = []
+    pos = 0
+    for g in groups:
+        mem = []
+        for m in g["members"]:
+            f = flat[pos]
+            mem.append({"int": f["int"], "frac": f["frac"], "exp": f["exp"],
+                        "outs": [{"cfg": c, "kind": outs[c][pos]["out"]["kind"], "bits": outs[c][pos]["out"]["bits"]} for c in cfgs]})
+            pos += 1
+        recs.append({"id": g["id"], "kind": g["kind"], "fmt": g["fmt"], "members": mem})
+    verdicts, res = tlc_records(wd, "CF_Order", recs, prop)
+    violations, tool = [], []
+    trails = collections.Counter()
+    for rid, v in verdicts.items():
+        trails[" > ".join(v["trail"])] += 1
+        if v["verdict"] == "impl_violates":
+            r = recs[rid - 1]
+            violations.append(core.write_replay(prop, {"property": prop, "record": r, "verdict": v,
+                                                       "members": [{"int": core.segs_str(m["int"]), "frac": core.segs_str(m["frac"]),
+                                                                    "exp": m["exp"], "bits": [hex(core.from_limbs(o["bits"])) for o in m["outs"]]}
+                                                                   for m in r["members"]]}))
+        elif v["verdict"] != "ok":
+            tool.append((rid, v))
+    tags = collections.Counter(g["tag"] for g in groups)
+    paths = parsecheck.path_histogram(outs)
+    # a chain/group is non-trivial when its members were resolved by more than one internal path
+    nontriv = 0
+    pos = 0
+    for g in groups:
+        ps = set()
+        for _ in g["members"]:
+            ps.add(outs[cfgs[0]][pos].get("path"))
+            pos += 1
+        if len(ps) > 1:
+            nontriv += 1
+    cov = {
+        "states": res.distinct, "transitions": res.generated,
+        "traces_validated_against_impl": len(recs),
+        "evaluations": len(flat) * len(cfgs), "distinct_nontrivial": nontriv,
+        "rule": rule + "; non-trivial = members resolved by more than one internal path (fast / moderate / slow)",
+        "samples": [{"kind": g["kind"], "tag": g["tag"], "members": [[core.segs_str(gen.core.segs(m["int"]) if isinstance(m["int"], str) else m["int"], 30),
+                                                                         core.segs_str(gen.core.segs(m["frac"]) if isinstance(m["frac"], str) else m["frac"], 30), m["exp"]]
+                                                                        for m in g["members"][:6]]} for g in groups[:: max(1, len(groups) // 5)]][:6],
+        "families": dict(tags), "impl_paths": paths, "spec_trails": dict(trails), "configs": cfgs, "members": len(flat),
+        "tlc_cmd": res.cmd, "exhaustive": False,
+    }
+    core.write_evidence(prop, tier, "model_checking", cov, time.time() - t0, len(violations),
+                        assumptions=["the order / equality claim of every chain / group is re-derived by TLC by exact comparison; "
+                                     "no rounding oracle involved"])
+    if tool:
+        raise core.ToolError("%d chains/groups with an unverifiable claim, e.g. %s" % (len(tool), tool[0]))
+    core.finish(prop, violations, [])
+
+
+def c09(tier):
+    groups = []
+    for F in (gen.F64, gen.F32):
+        groups += gen.g_chains(F, gen.rng_for("C09" + F.name), tier)
+    for k, g in enumerate(groups):
+        g["id"] = k + 1
+    cfgs = ["std", "std+compact"] if tier == "quick" else ["std", "std+compact", "none", "compact+alloc"]
+    order_check("C09", tier, groups, cfgs,
+                "ascending chains (successive significands, last digits, exponents, far-out digits, midpoint neighbourhoods) "
+                "across every algorithm switch-over, f32 and f64; TLC verifies the order claim exactly and that bits never descend")
+
+
+def c10(tier):
+    groups = []
+    for F in (gen.F64, gen.F32):
+        groups += gen.g_groups(F, gen.rng_for("C10" + F.name), tier)
+    for k, g in enumerate(groups):
+        g["id"] = k + 1
+    cfgs = ["std", "std+compact"] if tier == "quick" else ["std", "std+compact", "none", "compact+alloc"]
+    order_check("C10", tier, groups, cfgs,
+                "groups: one digit sequence x every split point x appended fraction zeros x digits moved into the exponent; "
+                "TLC verifies the members denote the same number and that all bits in a group are identical")
+
+
+CHECKS["C09"] = c09
+CHECKS["C10"] = c10
+
+
+# ----------------------------------------------------------------------- C03
+
+def float_bits_corpus(F, rng, tier):
+    q = tier == "quick"
+    out = []
+    fields = list(range(0, F.emaxfield))
+    if q:
+        keep = {0, 1, 2, F.emaxfield - 1, F.bias, F.bias + 1, F.bias - 1}
+        fields = sorted(keep | set(rng.sample(fields, 150 if F.name == "f64" else 100)))
+    for ef in fields:
+        pats = gen.sig_patterns(F, rng, 2 if q else 64)
+        for fr in (rng.sample(pats, 4) if q else pats):
+            out.append((ef << F.mbits) | fr)
+    out += [0, 1, 2, F.infbits - 1]
+    return sorted(set(out))
+
+
+def c03(tier):
+    wd = core.workdir("C03-render")
+    floats = []
+    for F in (gen.F64, gen.F32):
+        for b in float_bits_corpus(F, gen.rng_for("C03" + F.name), tier):
+            floats.append({"fmt": F.name, "bits": core.limbs(b)})
+    inp = os.path.join(wd, "floats.ndjson")
+    core.write_ndjson(inp, floats)
+    bindir = core.build_harness("std", bins=["gen_render"])
+    outp = os.path.join(wd, "renderings.ndjson")
+    core.run([os.path.join(bindir, "gen_render"), "--in", inp, "--out", outp], timeout=600)
+    inputs = core.read_ndjson(outp)
+    for r in inputs:
+        r["tag"] = "C03:" + r["render"]
+    cfgs = ["std", "std+compact"] if tier == "quick" else ["std", "std+compact", "none", "compact", "std+alloc"]
+    parsecheck.parse_property_check(
+        "C03", tier, inputs, cfgs, {"VALUE", "EXPECT"},
+        rule="finite non-negative floats: every (sampled in quick) exponent field x significand patterns {0,1,2,max,max-1,"
+             "alternating, half, random}, f32 and f64, each rendered by Rust's formatter as shortest, 9/17 significant digits and "
+             "exact expansion; TLC validates the rendering against the model first, then requires the parse result to be x",
+        level_note="renderings come from Rust's std formatter but are validated by TLC (a bad rendering is a tool error); "
+                   "2^31 / 2^63 floats are not enumerated",
+        extra_cov={"floats": len(floats)})
+
+
+# --------------------------------------------------------- C04 C05 C06 C07 C15
+
+def long_corpus(F, tier, name):
+    rng = gen.rng_for(name)
+    q = tier == "quick"
+    recs = [r for r in gen.g_midpoints(F, rng, tier, nexp=16 if q else 400, nrand=1 if q else 3)
+            if r["tag"].split(":")[1] in ("far1", "nines", "zeros", "exact", "last+1", "last-1", "trunc", "truncup")]
+    recs = [r for r in recs if len(r["int"]) + len(r["frac"]) > 19]
+    recs += gen.g_runs(F, rng, 100 if q else 4000)
+    big = 100000 if q else 1000000
+    # exact ties with a far-out digit / tails of every length class
+    for ef in rng.sample(range(1, F.emaxfield), 5 if q else 80):
+        bits = (ef << F.mbits) | rng.choice(gen.sig_patterns(F, rng, 2))
+        M, k = F.midpoint(bits)
+        ds, e10 = gen.exact_decimal(M, k)
+        for z in ([1000, big] if q else [1000, 10000, 100000, big]):
+            tailz = [{"d": [0], "n": z}]
+            base = core.segs(ds)
+            recs.append(gen.mk(F.name, [], base + tailz + [{"d": [1], "n": 1}], e10 + len(ds), "C06:far-digit"))
+            recs.append(gen.mk(F.name, [], base + tailz, e10 + len(ds), "C06:far-zeros"))
+            recs.append(gen.mk(F.name, base + tailz + [{"d": [1], "n": 1}], [], e10 - z - 1, "C06:far-digit-int"))
+            recs.append(gen.mk(F.name, base + tailz, [], e10 - z, "C06:far-zeros-int"))
+            lower = core.segs(str(int(ds) - 1))
+            recs.append(gen.mk(F.name, [], lower + [{"d": [9], "n": z}], e10 + len(ds), "C06:nines"))
+            recs.append(gen.mk(F.name, lower[:1] if False else [], [{"d": [0], "n": 7}] + lower + [{"d": [9], "n": z}], e10 + len(ds) + 7, "C06:nines-lead0"))
+    return gen.normalise(gen.dedup(recs))
+
+
+def c06(tier):
+    cfgs = ["std", "std+compact", "std+alloc"] if tier == "quick" else core.ALL_CONFIGS
+    inputs = long_corpus(gen.F64, tier, "C06f64") + long_corpus(gen.F32, tier, "C06f32")
+    inputs = gen.normalise(inputs)
+    parsecheck.parse_property_check(
+        "C06", tier, inputs, cfgs, {"VALUE", "MODEL"},
+        rule="inputs with 20 .. 10^6 significant digits: midpoint expansions with far-out digits, tails of 9s, trailing zeros, "
+             "truncations around 19 digits and MAX_DIGITS; run-structured strings over the three truncation mechanisms; "
+             "integer-only, fraction-only with leading zeros, split; oracle uses the first 800 digits + tail flag (exact)",
+        level_note="as C01; digit strings cross to TLC in run-length form and are never expanded beyond 800 digits")
+
+
+def range_corpus(F, tier, name):
+    rng = gen.rng_for(name)
+    q = tier == "quick"
+    recs = gen.g_seams(F, rng) + gen.g_extremes(F, rng, big=20000 if q else 1000000)
+    recs = [r for r in recs if r["tag"].startswith(("G4:end", "G5"))]
+    # every subnormal exponent position and the top binades
+    for k in (range(0, F.mbits + 2, 5) if q else range(0, F.mbits + 2)):
+        frs = sorted({1 << min(k, F.mbits - 1), (1 << min(k, F.mbits - 1)) + 1, max(1, (1 << min(k, F.mbits - 1)) - 1)})
+        for fr in (frs[:2] if q else frs):
+            for r in gen.midpoint_variants(F, fr, rng, tier):
+                r["tag"] = "C07:subnormal:" + r["tag"].split(":")[1]
+                recs.append(r)
+    for ef in (F.emaxfield - 1, F.emaxfield - 2, 1, 2):
+        for fr in ((0, (1 << F.mbits) - 1) if q else (0, 1, (1 << F.mbits) - 1, (1 << F.mbits) - 2)):
+            for r in gen.midpoint_variants(F, (ef << F.mbits) | fr, rng, tier):
+                r["tag"] = "C07:edge:" + r["tag"].split(":")[1]
+                recs.append(r)
+    return gen.normalise(gen.dedup(recs))
+
+
+def c07(tier):
+    cfgs = ["std", "std+compact"] if tier == "quick" else core.ALL_CONFIGS
+    inputs = gen.normalise(range_corpus(gen.F64, tier, "C07f64") + range_corpus(gen.F32, tier, "C07f32"))
+    parsecheck.parse_property_check(
+        "C07", tier, inputs, cfgs, {"VALUE", "MODEL"},
+        rule="range ends: every subnormal exponent position x {2^k, 2^k+-1} midpoints in all variants, top/bottom binades, "
+             "2^-1075 / 2^-1074 / 2^-1022 / 2^1024-2^970 (f32 analogues) +-1 digit and far-out digits, zero significands x "
+             "every exponent class, exponents to the i32 limits with compensating digit strings",
+        level_note="as C01; the oracle's inf / zero clauses are the thresholds the property names")
+
+
+def c05(tier):
+    cfgs = ["std", "std+compact", "std+alloc", "none", "compact+alloc"] if tier == "quick" else core.ALL_CONFIGS
+    inputs = []
+    for F in (gen.F64, gen.F32):
+        rng = gen.rng_for("C05" + F.name)
+        q = tier == "quick"
+        inputs += gen.g_plain(F, rng, 200 if q else 3000)
+        inputs += gen.g_midpoints(F, rng, tier, nexp=30 if q else 300, nrand=1 if q else 3)
+        inputs += gen.g_seams(F, rng)
+        inputs += gen.g_extremes(F, rng, big=20000)
+        inputs += gen.g_runs(F, rng, 100 if q else 2000)
+    inputs = gen.normalise(gen.dedup(inputs))
+    parsecheck.parse_property_check(
+        "C05", tier, inputs, cfgs, {"AGREE", "VALUE"},
+        rule="every input is run in separately compiled feature configurations and joined by id; TLC requires pairwise "
+             "identical outcome and bits (and, in the same run, equality with the oracle)",
+        level_note="no oracle is needed for the agreement verdict; configurations are separate cargo builds of the harness "
+                   "with the features forwarded to /repo")
+
+
+def c15(tier):
+    cfgs = ["std", "std+compact", "none", "compact"]
+    extra = ["std+alloc"] if tier != "quick" else []
+    inputs = []
+    for F in (gen.F64, gen.F32):
+        rng = gen.rng_for("C15" + F.name)
+        q = tier == "quick"
+        inputs += gen.g_midpoints(F, rng, tier, nexp=40 if q else 400, nrand=1)
+        inputs += gen.g_runs(F, rng, 80 if q else 1500)
+        inputs += gen.g_seams(F, rng)[:: 3 if q else 1]
+        inputs += gen.g_extremes(F, rng, big=20000)
+    inputs = gen.normalise(gen.dedup(inputs))
+    parsecheck.parse_property_check(
+        "C15", tier, inputs, cfgs + extra, {"ALLOCS", "NOPANIC"},
+        rule="allocation requests (alloc/alloc_zeroed/realloc) counted by a #[global_allocator] in the harness around each "
+             "parse_float call, per thread; configurations without the alloc feature must show 0; inputs chosen so that the "
+             "big-integer path (incl. long multiplication by 5^135) is reached",
+        level_note="instrument: counting global allocator (the specification fixes what is permitted: allocs = 0 unless alloc); "
+                   "alloc builds are recorded informationally")
+
+
+def c04(tier):
+    cfgs = ["std", "std+compact"] if tier == "quick" else ["std", "std+compact", "std+alloc", "none", "compact", "compact+alloc"]
+    inputs = []
+    for F in (gen.F64, gen.F32):
+        rng = gen.rng_for("C04" + F.name)
+        q = tier == "quick"
+        inputs += gen.g_plain(F, rng, 100 if q else 2000)
+        inputs += gen.g_midpoints(F, rng, tier, nexp=25 if q else 300, nrand=1)
+        inputs += gen.g_seams(F, rng)[:: 2 if q else 1]
+        inputs += gen.g_extremes(F, rng, big=100000 if q else 1000000)
+        inputs += gen.g_runs(F, rng, 100 if q else 2500)
+    inputs = gen.normalise(gen.dedup(inputs))
+    parsecheck.parse_property_check(
+        "C04", tier, inputs, cfgs, {"NOPANIC", "MODEL"}, profiles=("release", "checked"),
+        rule="valid inputs of length 0 .. 10^6 and exponents over the whole i32 range, run in release and in a dev profile "
+             "with debug-assertions and overflow-checks (catch_unwind per call); TLC validates that each input is valid and "
+             "that the outcome is a value; the model (MinLex) is run alongside and must raise no debug assertion and stay "
+             "within 62 limbs",
+        level_note="instrument: catch_unwind + process exit status; the model supplies the permitted outcome (value) and the "
+                   "limb-capacity measurement")
+
+
+CHECKS.update({"C03": c03, "C04": c04, "C05": c05, "C06": c06, "C07": c07, "C15": c15})
